@@ -72,7 +72,7 @@ def main():
         import labrea
 
         res["labrea"] = os.path.dirname(labrea.__file__)
-        applied = [stubs.apply_s7()]
+        applied = [] if "noS7" in job.get("stubs", []) else [stubs.apply_s7()]
         if "S1" in job.get("stubs", []):
             applied.append(stubs.apply_s1())
         res["stubs"] = applied
